@@ -146,10 +146,28 @@ def gen_cases(rng, tier):
                     continue
                 for e in errs:
                     for st in STATES:
-                        if pid == 0 and tier == "quick" and (st == "zombie" or e not in ("ESRCH", "ENOENT", "EIO")):
+                        if tier == "quick" and ((pid == 0 and (st == "zombie" or e not in ("ESRCH", "ENOENT", "EIO")))
+                                                or e in ("EACCES", "EINVAL", "WPRIV", "WINVAL")):
                             continue      # (the table theorem C20_allfail_contract covers the whole space on every run)
                         cases.append({"kind": "allfail", "cls": "allfail-%s-%s" % (plat, e), "plat": plat, "meth": meth,
                                       "site": first, "err": e, "state": st, "pid": pid})
+    # ---- double fault: the method's call fails with e1, every follow-up probe of the error path with e2
+    for plat in PLATS:
+        if plat == "windows":
+            continue
+        for meth, sites in sorted(_PROBE["sites"][plat].items()):
+            for pid in (7, 0):
+                for site in sites[str(pid)]:
+                    for e1 in POSIX_ERRS:
+                        if tier == "quick" and e1 not in (("ESRCH", "ENOENT", "EIO") if plat in ("sunos", "aix", "netbsd") else ("ESRCH", "EIO")):
+                            continue      # (C20_probe_contract covers every e1 on every run)
+                        if tier == "quick" and pid == 0 and (e1 != "EIO" or plat in ("macos", "aix")):
+                            continue
+                        for e2 in POSIX_ERRS:
+                            if tier == "quick" and (e2 == e1 or e2 in ("EACCES", "EINVAL")):
+                                continue
+                            cases.append({"kind": "probe", "cls": "probe-%s-%s" % (plat, e1), "plat": plat, "meth": meth,
+                                          "site": site, "err1": e1, "err2": e2, "pid": pid})
     # ---- the zombie test for EVERY native status code of PROC_STATUSES (ESRCH; ENOENT too where it means "gone")
     for r in _PROBE["status"]:
         plat = r["plat"]
@@ -171,8 +189,8 @@ def gen_cases(rng, tier):
                 for e2 in errs:
                     for st, pid in (("alive", 7), ("gone", 7), ("alive", 0), ("zombie", 7)) if plat == "windows" else \
                             [(a, b) for a in STATES for b in (7, 0)]:
-                        if tier == "quick" and plat == "windows" and (st, pid) not in (("alive", 7), ("gone", 7)):
-                            continue
+                        if tier == "quick" and plat == "windows" and (st, pid) != ("alive", 7):
+                            continue      # (C20_pair_contract covers every state / pid on every run)
                         cases.append({"kind": "pair", "cls": "pair-%s-%s" % (plat, meth), "plat": plat, "meth": meth, "site1": s1,
                                       "site2": s2, "err1": e1, "err2": e2, "state": st, "pid": pid})
     for meth, site in P.RETRY + [("exe", "proc_exe")]:
@@ -282,6 +300,9 @@ def coq_term(case):
         return "run_olayout %s %s %s" % (COQ_PLAT[case["plat"]], _qs(case["meth"]), _qs(case["variant"]))
     if k == "sysfields":
         return "run_sysfields %s %s" % (COQ_PLAT[case["plat"]], _qs(case["fn"]))
+    if k == "probe":
+        return "run_probe %s %s %s %s %s %s" % (COQ_PLAT[case["plat"]], _qs(case["meth"]), _qs(case["site"]), case["err1"],
+                                                case["err2"], G.z(case["pid"]))
     if k == "allfail":
         return "run_allfail %s %s %s %s %s %s" % (COQ_PLAT[case["plat"]], _qs(case["meth"]), _qs(case["site"]), case["err"],
                                                   COQ_STATE[case["state"]], G.z(case["pid"]))
@@ -313,7 +334,9 @@ def coq_struct(case, raw):
         return {"model": [raw[0], raw[1], raw[2]], "spec": None, "missing": [raw[3], raw[4]]} if isinstance(raw, list) else {"model": raw, "spec": None}
     if k == "ladder":
         return {"model": raw[0], "spec": raw[1], "contract": raw[2]}
-    if k in ("layout", "dep", "nic", "pair", "retry", "wait", "sysfields", "olayout", "allfail"):
+    if k == "probe":
+        return {"model": raw[0], "spec": None, "allowed": raw[1], "known": raw[2]}
+    if k in ("layout", "dep", "nic", "pair", "retry", "wait", "sysfields", "olayout", "allfail", "probe"):
         return {"model": raw[0], "spec": raw[1]}
     raise ValueError(k)
 
@@ -328,6 +351,8 @@ def finding_key(case, coq):
         if case["plat"] == "netbsd" and case["meth"] == "cmdline" and case["site"] == "proc_cmdline" and case["err"] == "EINVAL":
             return "pid0-unlisted-taken-to-exist"
     # fixed: windows-memory_maps-querydosdevice d6fc959, windows-ipv6-broadcast-address-form-netmask 0a57bb9
+    if case["kind"] == "probe" and coq.get("known") is True:
+        return "sunos-probe-error-escapes"
     if case["kind"] == "pair" and case["plat"] == "sunos" and case["pid"] == 0 and case["state"] == "gone" \
             and ("ESRCH" in (case["err1"], case["err2"]) or "ENOENT" in (case["err1"], case["err2"])):
         return "pid0-unlisted-taken-to-exist"
@@ -378,6 +403,22 @@ def judge(case, coq, impl):
         return Verdict("corr", "native call %s not reached by %s.%s(pid=%d)" % (case["site"], case["plat"], case["meth"], case["pid"]))
     if k == "layout" and isinstance(coq["model"], list) and coq["model"][2] == T("OutOfModel"):
         return Verdict("skip", "answer not decodable into native slots")
+    if k == "probe":
+        if isinstance(impl, dict) and impl.get("t") == "NotFired":
+            return Verdict("corr", "native call %s not reached" % case["site"])
+        allowed = coq.get("allowed")
+        if allowed is not None and impl not in allowed:
+            v = Verdict("violation", "double fault (%s at %s, probes %s): %r is not among the acceptable outcomes %r"
+                        % (case["err1"], case["site"], case["err2"], impl, allowed))
+            key = finding_key(case, coq)
+            if key is not None and impl == coq["model"]:
+                if key in _local_known():
+                    if key not in _announced:
+                        _announced.add(key)
+                        print("KNOWN-FINDING: property=%s %s" % (ID, _local_known()[key]))
+                    return Verdict("known", key)
+            return v
+        return Verdict("ok") if impl == coq["model"] else Verdict("corr", "impl != model")
     if k == "sysfields":
         if impl != coq["model"]:
             return Verdict("corr", "field list differs from the generated table")
@@ -417,7 +458,7 @@ def judge(case, coq, impl):
 
 
 def nontrivial(case, coq, impl):
-    return case["kind"] in ("ladder", "layout", "nic", "dep", "pair", "retry", "wait", "sysfields", "olayout", "allfail")
+    return case["kind"] in ("ladder", "layout", "nic", "dep", "pair", "retry", "wait", "sysfields", "olayout", "allfail", "probe")
 
 
 # ------------------------------------------------------------------ implementation side (worker)
@@ -494,6 +535,11 @@ def impl_run(case, coq, env):
         if not callable(getattr(pkg, case["fn"], None)):
             return T("NoSuchFunction")
         return [B(f) for f in cls._fields]
+    if k == "probe":
+        L = _layer(case["plat"], env)
+        if case["meth"] not in P.methods_of(L):
+            return T("NoSuchMethod")
+        return P.probefault_outcome(L, case["meth"], case["site"], case["err1"], case["err2"], case["pid"])
     if k == "allfail":
         L = _layer(case["plat"], env)
         if case["meth"] not in P.methods_of(L):
@@ -558,8 +604,10 @@ MANIFEST = {
             "contract demands (NoSuchProcess / ZombieProcess / AccessDenied with pid and cached name, other errors unchanged, PID-0 rule on BSD "
             "and Solaris only when PID 0 is listed, the commented fall-backs); the same for two-fault sequences (first call fails, the documented "
             "second route fails: Windows proc_info fall-backs, Windows cmdline PEB/non-PEB, Solaris cred/psinfo), for ERROR_PARTIAL_COPY retried "
-            "k times for every k, and for wait(0) (TimeoutExpired with pid and name while the PID is listed). Excluded and refuted: a PID 0 the OS "
-            "does not list is taken to exist (Solaris, NetBSD cmdline). Legacy variants of the model (before fixes a2d103c, d6fc959, 0a57bb9) are "
+            "k times for every k, for wait(0) (TimeoutExpired with pid and name while the PID is listed), for every native call of the method failing "
+            "at once, and for double faults in the translation path (the call fails with e1, the follow-up probes is_zombie / pid_exists / pids "
+            "with an independent e2: the outcome lies in the acceptable set, never a bare OSError for a no-such-process or permission failure). Excluded and refuted: a PID 0 the OS "
+            "does not list is taken to exist (Solaris, NetBSD cmdline); Solaris lets an os.kill probe error other than ESRCH/EPERM out. Legacy variants of the model (before fixes a2d103c, d6fc959, 0a57bb9) are "
             "refuted. Tables "
             "regenerated from the code on every run (finite forallb facts lifted with forallb_forall): every probed outcome of every (platform, "
             "method, call, error, state, pid), of every native status code of every PROC_STATUSES (ZombieProcess iff the code means zombie), of "
